@@ -8,6 +8,7 @@ package classifier
 // C12 (LoadLicenses). Each emits verdicts; none consults the Lean model.
 
 import (
+	"unicode"
 	"bytes"
 	"errors"
 	"fmt"
@@ -732,7 +733,11 @@ func vclassifyMeta(c *Classifier, tr string, in, data []byte, base, got Results,
 					rest = rest[:len(rest)-1] + g[0]
 				}
 			}
-			if !header(strings.ToLower(strings.TrimLeft(f[1], "`'\"<[{*_~"))) && !visNotice(rest) {
+			// a word begins at the first rune that can start one (letter, digit, '&', '('): "$5.00." -> "5.00."
+			w1 := strings.TrimLeftFunc(f[1], func(r rune) bool {
+				return !(unicode.IsLetter(r) || unicode.IsDigit(r) || r == '&' || r == '(')
+			})
+			if !header(strings.ToLower(w1)) && !visNotice(rest) {
 				break
 			}
 			l = l[:len(l)-1] + strings.TrimLeft(lines[i], " \t")
